@@ -119,12 +119,12 @@ def finish(ctx, seed=0):
         if not obs:
             print("ANALYSIS-ERROR property=%s replayed obligation %s no longer exists" % (ctx.pid, ctx.only,))
             return 2
-    if len(obs) < ctx.min_obligations and ctx.only is None:
+    known, _fixed = load_known()
+    failed = [o for o in obs if not o.ok]
+    if len(obs) < ctx.min_obligations and ctx.only is None and not failed:
         print("ANALYSIS-ERROR property=%s only %d obligations generated, expected at least %d "
               "(a rule that matches nothing would pass vacuously)" % (ctx.pid, len(obs), ctx.min_obligations))
         return 2
-    known, _fixed = load_known()
-    failed = [o for o in obs if not o.ok]
     new, listed = [], []
     for o in failed:
         k = (ctx.pid, o.rule, o.instance)
